@@ -433,11 +433,75 @@ def ki_transparent(ctx: Ctx):
                  construct='scan')
 
 
+def _instance_complete(ctx: Ctx, f: FuncInfo) -> tuple[bool, str]:
+    """Does f(task) enumerate *every task instance* directly held in the task's fields?  True for a list built from
+    `for field in fields(task)` x `for d in find_tasks_in_param(getattr(task, field.name))` without a condition; False
+    (with the reason) when the result is a set-like collection that merges equal instances."""
+    ftp = ctx.P.func('tasks.find_tasks_in_param')
+    params = [a.arg for a in f.params]
+    if not params:
+        return False, 'no task parameter'
+    tp = params[0]
+    rets = [r for r in walk_local(f.node) if isinstance(r, ast.Return) and r.value is not None]
+    if len(rets) != 1:
+        return False, 'not a single return'
+    v = rets[0].value
+    merged_ctor = None
+    if isinstance(v, ast.Call) and (dotted(v.func) or '').split('.')[-1] in ('list', 'tuple') and len(v.args) == 1:
+        v = v.args[0]
+    elif isinstance(v, ast.Call) and (dotted(v.func) or '').split('.')[-1] in ('OrderedSet', 'set', 'frozenset'):
+        merged_ctor = (dotted(v.func) or '').split('.')[-1]
+
+    def gens_ok(gens, elt) -> bool:
+        if len(gens) != 2 or any(g.ifs for g in gens):
+            return False
+        g1, g2 = gens
+        if not (isinstance(g1.iter, ast.Call) and (dotted(g1.iter.func) or '').split('.')[-1] == 'fields' and g1.iter.args
+                and isinstance(g1.iter.args[0], ast.Name) and g1.iter.args[0].id == tp and isinstance(g1.target, ast.Name)):
+            return False
+        it2 = g2.iter
+        if not (isinstance(it2, ast.Call) and ftp.qualname in ctx.P.resolve_call(it2, f) and it2.args):
+            return False
+        a = it2.args[0]
+        want = ast.parse(f'getattr({tp}, {g1.target.id}.name)', mode='eval').body
+        return same_expr(a, want) and isinstance(g2.target, ast.Name) and isinstance(elt, ast.Name) and elt.id == g2.target.id
+
+    if isinstance(v, (ast.ListComp, ast.GeneratorExp)) and merged_ctor is None:
+        return (True, '') if gens_ok(v.generators, v.elt) else (False, 'the comprehension does not cover fields(task) x find_tasks_in_param(getattr(task, field.name))')
+    if isinstance(v, ast.Name):
+        # accumulator form: out = [] ; for field in fields(task): for d in find_tasks_in_param(...): out.append(d)
+        inits = [n for n in walk_local(f.node) if isinstance(n, (ast.Assign, ast.AnnAssign)) and getattr(n, 'value', None) is not None
+                 and any(isinstance(t, ast.Name) and t.id == v.id for t in (n.targets if isinstance(n, ast.Assign) else [n.target]))]
+        if len(inits) == 1:
+            iv = inits[0].value
+            if isinstance(iv, ast.Call) and (dotted(iv.func) or '').split('.')[-1] in ('OrderedSet', 'set'):
+                return False, f'the result is an {(dotted(iv.func) or "").split(".")[-1]}: equal instances are merged and only the first of them is returned'
+            if isinstance(iv, (ast.ListComp, ast.GeneratorExp)):
+                return (True, '') if gens_ok(iv.generators, iv.elt) else (False, 'the comprehension does not cover fields(task) x find_tasks_in_param(getattr(task, field.name))')
+            if isinstance(iv, ast.List) and not iv.elts:
+                for outer in [n for n in walk_local(f.node) if isinstance(n, ast.For)]:
+                    for inner in [n for n in outer.body if isinstance(n, ast.For)]:
+                        adds = [c for c in calls_in(inner) if isinstance(c.func, ast.Attribute) and c.func.attr == 'append'
+                                and isinstance(c.func.value, ast.Name) and c.func.value.id == v.id]
+                        if adds and len(inner.body) == 1 and len(outer.body) <= 2:
+                            g1 = ast.comprehension(target=outer.target, iter=outer.iter, ifs=[], is_async=0)
+                            g2 = ast.comprehension(target=inner.target, iter=inner.iter, ifs=[], is_async=0)
+                            if gens_ok([g1, g2], adds[0].args[0] if adds[0].args else None):
+                                return True, ''
+                        exts = [c for c in calls_in(outer) if isinstance(c.func, ast.Attribute) and c.func.attr == 'extend'
+                                and isinstance(c.func.value, ast.Name) and c.func.value.id == v.id]
+                        del exts
+        return False, 'the returned collection is not a plain list of every instance found'
+    if merged_ctor:
+        return False, f'the result is wrapped in {merged_ctor}(...): equal instances are merged'
+    return False, 'unrecognised enumeration'
+
+
 @rule('C01.DEP-MAP-ATTACH', ['C01', 'C02'], min_instances=2)
 def dep_map_attach(ctx: Ctx):
-    """On every runner's execution path _set_results_map(M) is called for every direct dependency before
-    run_or_load_task, with M derived from the runner's own results_map."""
-    gdd = ctx.P.func('tasks.get_direct_dependencies')
+    """On every runner's execution path _set_results_map(M) is called for every direct dependency *instance* before
+    run_or_load_task, with M derived from the runner's own results_map.  The enumeration must not merge equal
+    instances (P(a=C(1), b=C(1)) holds two objects, and `self.b.result` needs the map on the second one too)."""
     sites = []
     for fn in ctx.P.all_functions():
         if not fn.module.name.startswith(f'{PKG}.runners'):
@@ -449,16 +513,26 @@ def dep_map_attach(ctx: Ctx):
         g = ctx.cfg(fn)
         ta = kwarg(call, 'task', 0)
         loops = []
+        why = ''
         for lp in [n for n in walk_local(fn.node) if isinstance(n, ast.For) and isinstance(n.target, ast.Name)]:
             it = strip_order_preserving(lp.iter)
-            if isinstance(it, ast.Call) and gdd.qualname in ctx.P.resolve_call(it, fn) and it.args and same_expr(it.args[0], ta):
-                sets = [c for c in calls_in(lp) if isinstance(c.func, ast.Attribute) and c.func.attr == '_set_results_map'
-                        and isinstance(c.func.value, ast.Name) and c.func.value.id == lp.target.id]
-                if sets:
-                    loops.append((lp, sets[0]))
+            if not (isinstance(it, ast.Call) and it.args and same_expr(it.args[0], ta)):
+                continue
+            sets = [c for c in calls_in(lp) if isinstance(c.func, ast.Attribute) and c.func.attr == '_set_results_map'
+                    and isinstance(c.func.value, ast.Name) and c.func.value.id == lp.target.id]
+            if not sets:
+                continue
+            enum = [ctx.P.funcs[q] for q in ctx.P.resolve_call(it, fn, by_name=False) if q in ctx.P.funcs]
+            if not enum:
+                continue
+            okc, why = _instance_complete(ctx, enum[0])
+            if okc:
+                loops.append((lp, sets[0]))
+            else:
+                why = f'`{src(it)[:60]}` does not enumerate every dependency instance: {why}'
         if not loops:
-            yield ctx.ob('C01.DEP-MAP-ATTACH', False, fn, call, 'results map attached to every direct dependency',
-                         f'no loop `for d in get_direct_dependencies({src(ta)}): d._set_results_map(...)` before run_or_load_task',
+            yield ctx.ob('C01.DEP-MAP-ATTACH', False, fn, call, 'results map attached to every direct dependency instance',
+                         why or f'no loop `for d in <every dependency instance of {src(ta)}>: d._set_results_map(...)` before run_or_load_task',
                          construct='no-attach-loop')
             continue
         lp, sc = loops[0]
